@@ -270,6 +270,9 @@ def run(ctx):
                     if not (pre and post and pre[0] == "preceding" and post[0] == "trailing" and midok):
                         r3.violation(key, "emoji candidates are wrapped as (%s, %r, %s), expected (preceding, entry, trailing) of the split value"
                                      % (pre and pre[0], mid, post and post[0]), common.fn_line(prog, p.closure))
+                    elif not _read_after_guard(prog, b, p, [fp[0][1], fp[2][1]], acc):
+                        r3.violation(key, "the wrapping parts used for emoji are read before the conversion / smart-quote step of the builder, "
+                                     "so emoji are wrapped differently from the word", common.fn_line(prog, p.closure))
                     elif not same_var:
                         r3.violation(key, "emoji are wrapped with parts of %r / %r, not of the split value whose word was looked up (%r)"
                                      % (pre[1], post[1], name_arg_part and name_arg_part[1]), common.fn_line(prog, p.closure))
@@ -343,3 +346,28 @@ def _same_split(a, b):
         return True
     # phi of split/quoter results on both sides: compare structurally
     return repr(ra) == repr(rb) and fa == fb
+
+
+def _read_after_guard(prog, b, p, parts, acc):
+    """The accessor reads that produce the wrapping parts happen after the builder's smart-quote option test
+    (hence after conversion and curling)."""
+    gsw = None
+    for i in b.rblocks:
+        t = b.blocks[i]["term"]
+        if t["k"] == "switch":
+            d = strip_refs(b.expr_operand(t["discr"]))
+            if d.k == "call" and d.a[0].endswith("Config::get_smart_quote"):
+                gsw = i
+    if gsw is None:
+        return False
+    cc = closure_creation(prog, p.closure)
+    create_bb = cc[1] if cc else None
+    for e in parts:
+        for x in e.walk():
+            if x.k == "call" and (x.a[0] in acc or x.a[0].endswith("::as_tuple")):
+                bb = x.a[2]
+                in_builder = bb < len(b.blocks) and b.blocks[bb]["term"] is x.t
+                pos = bb if in_builder else create_bb
+                if pos is None or not b.dominates(gsw, pos):
+                    return False
+    return True
